@@ -37,6 +37,18 @@ def streams(tier, rng, P, only=None, cases=None):
             site = rng.choice(["%s", "%s", "[2 %s]", "Sub{%s} r", "o5 %s v100", "#Outer={%s r} #Outer"])
             pre = rng.choice(["", "l8 ", "o4 v80 "])
             raw.append(dict(define=define, call=call, site=site, pre=pre, body=body, args=args))
+        for i in range(n // 12):
+            # two macros / string variables whose names are in a prefix relation, the shorter one called without arguments from a body
+            # or site that also mentions the longer one
+            kind = rng.choice(["#", "STR"])
+            if kind == "#": shortn, longn = rng.choice([("#A", "#AB"), ("#M", "#Mac"), ("#Ri", "#Riff")])
+            else: shortn, longn = rng.choice([("Rif", "Riff"), ("Pt", "Ptn"), ("Ab", "Abc")])
+            lbody = rng.choice(["e g", "o5 c", "f8 a8", "r"])
+            sbody = rng.choice(["c %s d", "%s", "l8 %s %s e", "[2 %s] c"]).replace("%s", longn)
+            if kind == "#": define = "%s={%s} %s={%s}" % (longn, lbody, shortn, sbody)
+            else: define = "STR %s={%s}; STR %s={%s};" % (longn, lbody, shortn, sbody)
+            site = rng.choice(["%s", "[2 %s]", "Sub{%s} r", "l8 %s c"])
+            raw.append(dict(define=define, call=shortn, site=site, pre=rng.choice(["", "l8 "]), body=sbody.replace(longn, lbody), args=[]))
         for i in range(n // 10):
             # macro bodies that execute BREAK / CONTINUE / RETURN, called with arguments from inside FOR / WHILE bodies and user functions:
             # the control statement must act on the enclosing loop exactly as in the inlined text
